@@ -94,6 +94,22 @@ LIB.fn(JNP + "linalg.norm", "norm(x) = sqrt(sum x_i^2) (vector 2-norm)")(_norm)
 LIB.fn("numpy.linalg.norm", "norm(x) = sqrt(sum x_i^2) (vector 2-norm)")(_norm)
 
 
+def _tri(upper):
+    def f(E, a, k=0):
+        a = T.as_tensor(tt(a))
+        if a.ndim != 2 or not isinstance(k, int):
+            raise Unsupported("triu / tril of a non-matrix")
+        keep = (lambda i, j: C.compare(">=", j, C.binop("+", i, k))) if upper else (lambda i, j: C.compare("<=", j, C.binop("+", i, k)))
+        return Tensor(a.shape, lambda i, j: C.ite(keep(i, j), a.at(i, j), 0 if a.sort == INT else Fraction(0)), a.sort, a.gdeps)
+    return f
+
+
+for _n, _u in (("triu", True), ("tril", False)):
+    if JNP + _n not in LIB.funcs:
+        LIB.fn(JNP + _n, f"{_n}(a, k): entries on and {'above' if _u else 'below'} the k-th diagonal, zero elsewhere")(_tri(_u))
+        LIB.fn("numpy." + _n, f"{_n}(a, k)")(_tri(_u))
+
+
 def _prod(E, a, axis=None, **kw):
     if isinstance(a, (tuple, list)):
         r = 1
